@@ -12,6 +12,10 @@ import (
 // TestMain turns the test binary of package main into the simulation worker:
 // the harness needs the unexported do().
 func TestMain(m *testing.M) {
+	if job := os.Getenv("VSIM_REAL_PLUGIN"); job != "" {
+		// stub-fidelity cross-check: this process is a real plugin
+		os.Exit(zzmain.RealPlugin(job))
+	}
 	if os.Getenv("VSIM_WORKER") != "" {
 		zzmain.HostMain = do
 		zzmain.Init()
